@@ -9,7 +9,7 @@ from ..interp import Interp, Obj, Sym, Term, Lin, View, Cell, is_opaque, vkey, _
 from ..chibi import Catalogue, type_cell, cat_of, INT_CATS
 from ..build import AnalysisBroken
 from ..lib_c05 import (TInterp, ctype_bits, settle, lin_eq, lin_diff, lsum, lscale, field, is_null, strip_cast, show,
-                       children_hook, child_index)
+                       children_hook, child_index, show_key)
 
 U = 'parse.c'
 SCALARS = INT_CATS + ('float', 'double', 'ldouble', 'ptr')
@@ -67,7 +67,7 @@ class BackEnd:
             v = Sym(ctx.fresh('eval2'), 'long')
             lab = None
             if i == 1:
-                lab = Sym(ctx.fresh('label'), 'char **')
+                lab = Obj(None, lazy=True, label=ctx.fresh('label'))     # a non-null char **
                 ref = args[1]
                 if not isinstance(ref, _Ref):
                     raise AnalysisBroken('eval2 is not given the address of a label variable in %s' % be.fname)
@@ -88,7 +88,7 @@ class BackEnd:
         def mk(ctx):
             init = Obj('Initializer', lazy=True, label='init')
             if init_expr is not None:
-                init.fields['expr'] = init_expr
+                init.fields['expr'] = init_expr(ctx) if callable(init_expr) else init_expr
             ctx.root_init = init
             ctx.root_ty = ty(ctx) if callable(ty) else ty
             if be.static:
@@ -113,9 +113,12 @@ class BackEnd:
         return {'init': a[0], 'ty': a[1], 'desg': settle(it, a[2]), 'res': ev[2], 'line': ev[3]}
 
     def kind_ty(self, kind):
-        ty = Obj('Type', lazy=True, label='ty')
-        ty.fields['kind'] = self.E[kind]
-        return ty
+        """factory (abstract objects must be fresh on every path)"""
+        def mk(ctx):
+            ty = Obj('Type', lazy=True, label='ty')
+            ty.fields['kind'] = self.E[kind]
+            return ty
+        return mk
 
 
 def visits(be, it, ctx):
@@ -299,13 +302,15 @@ def r051_struct_expr(be, rep):
     """a struct initialised by an expression of struct type (init->expr set): must be honoured or diagnosed"""
     fn = be.fname
     it = be.interp()
-    e = Obj('Node', lazy=True, label='struct-valued-expr')
-    res = it.explore(fn, be.args(be.kind_ty('TY_STRUCT'), init_expr=e))
+    res = it.explore(fn, be.args(be.kind_ty('TY_STRUCT'), init_expr=lambda ctx: Obj('Node', lazy=True, label='struct-valued-expr')))
     n = 0
     for ctx, out in res:
         n += 1
+        e = ctx.root_init.fields['expr']
         if out[0] == 'noreturn':
-            ok = out[1] in ('error_tok', 'error_at')
+            if out[1] not in ('error_tok', 'error_at'):
+                continue     # size dispatch of read_buf/write_buf on impossible bit-field sizes: not judged here
+            ok = True
             rep.ob('R05.1', '%s:%s:struct-valued-initializer/diagnosed' % (U, fn), ok,
                    '%s stops with %s() on a struct initialised by an expression of struct type' % (fn, out[1]), where=_w(be.u, fn), facts={'path': ctx.trail})
             continue
@@ -484,11 +489,11 @@ def r052_scalars(P, u, E, cat, rep):
     """scalar tail of write_gvar_data for every scalar type of the catalogue; also R05.7 relocation creation"""
     be = BackEnd(P, u, E, 'write_gvar_data')
     it = be.interp()
-    e = Obj('Node', lazy=True, label='init.expr')
-    res = it.explore('write_gvar_data', be.args(lambda ctx: type_cell(cat, 'ty', only=SCALARS), init_expr=e))
+    res = it.explore('write_gvar_data', be.args(lambda ctx: type_cell(cat, 'ty', only=SCALARS), init_expr=lambda ctx: Obj('Node', lazy=True, label='init.expr')))
     done = {}
     nrel = 0
     for ctx, out in res:
+        e = ctx.root_init.fields['expr']
         names = [n for n in cat_of(ctx.root_ty) if n]
         lab = [ev for ev in ctx.events if ev[0] == 'call' and ev[1] == 'eval2' and ev[5] is not None]
         stores = [ev for ev in ctx.events if ev[0] == 'store']
@@ -606,3 +611,591 @@ def run(P, rep, tier):
         r051_struct_expr(be, rep)
         r051_union(be, rep)
     r052_scalars(P, u, E, cat, rep)
+    r057_addr(P, u, E, cat, rep)
+    r058(P, u, E, rep)
+    r055(P, rep)
+
+
+# ------------------------------------------------------------------------------------------------
+# R05.7 address-constant arms of eval2 / eval_rval
+# ------------------------------------------------------------------------------------------------
+# kind -> (recursive terms [(callee, child field, label passed on?, sign)], member offset added?, label source or None)
+ADDR_SPEC = {
+    'eval2': {
+        'ND_ADDR': ([('eval_rval', 'lhs', True, 1)], False, None),
+        'ND_LABEL_VAL': ([], False, ('node', 'unique_label')),
+        'ND_MEMBER': ([('eval_rval', 'lhs', True, 1)], True, None),
+        'ND_VAR': ([], False, ('var', 'name')),
+        'ND_ADD': ([('eval2', 'lhs', True, 1), ('eval2', 'rhs', False, 1)], False, None),
+        'ND_SUB': ([('eval2', 'lhs', True, 1), ('eval2', 'rhs', False, -1)], False, None),
+        'ND_COMMA': ([('eval2', 'rhs', True, 1)], False, None),
+        'ND_CAST': ([('eval2', 'lhs', True, 1)], False, None),
+    },
+    'eval_rval': {
+        'ND_VAR': ([], False, ('var', 'name')),
+        'ND_DEREF': ([('eval2', 'lhs', True, 1)], False, None),
+        'ND_MEMBER': ([('eval_rval', 'lhs', True, 1)], True, None),
+    },
+}
+WHAT = {'ND_ADDR': '&lvalue', 'ND_LABEL_VAL': '&&label', 'ND_MEMBER': 'an array member (decays to its address)', 'ND_VAR': 'an array/function designator',
+        'ND_ADD': 'address + n', 'ND_SUB': 'address - n', 'ND_COMMA': '(x, address)', 'ND_CAST': '(T)address', 'ND_DEREF': '*pointer as lvalue'}
+
+
+class _Slot:
+    """a C variable of type char ** living outside the interpreted function (the caller's `label`)"""
+    def __init__(self):
+        self.v = 0
+
+    def get(self, it):
+        return self.v
+
+    def set(self, it, v):
+        self.v = v
+
+
+def r057_addr(P, u, E, cat, rep):
+    for fn, table in ADDR_SPEC.items():
+        for kind, (terms, plus, labsrc) in table.items():
+            if kind not in E:
+                raise AnalysisBroken('enumerator %s vanished' % kind)
+            _addr_arm(P, u, E, cat, rep, fn, kind, terms, plus, labsrc)
+
+
+def _addr_arm(P, u, E, cat, rep, fn, kind, terms, plus, labsrc):
+    def h(name):
+        def f(it, ctx, n, args):
+            r = Sym(ctx.fresh(name), 'long')
+            ctx.emit('rec', name, args, r, n.line)
+            return r
+        return f
+    it = TInterp(P, u, {'cut': {'eval2': h('eval2'), 'eval_rval': h('eval_rval')}, 'opaque': ['add_type', 'eval_double'], 'track_stores': True})
+
+    def mk(ctx):
+        node = Obj('Node', lazy=True, label='node')
+        node.fields['kind'] = E[kind]
+        node.fields['ty'] = type_cell(cat, 'node.ty', only=('ptr', 'array'))
+        for ch in ('lhs', 'rhs'):
+            node.fields[ch] = Obj('Node', lazy=True, label='node.' + ch)
+        var = Obj('Obj', lazy=True, label='node.var')
+        var.fields['ty'] = type_cell(cat, 'node.var.ty', only=('array', 'func', 'int', 'ptr', 'struct'))
+        node.fields['var'] = var
+        node.fields['member'] = Obj('Member', lazy=True, label='node.member')
+        ctx.node = node
+        ctx.slot = _Slot()
+        ctx.lref = _Ref(ctx.slot)
+        return [node, ctx.lref]
+    res = it.explore(fn, mk)
+    key = '%s:%s:%s' % (U, fn, kind)
+    where = _w(u, fn)
+    nret = 0
+    for ctx, out in res:
+        node = ctx.node
+        if out[0] != 'ret':
+            # rejected: only acceptable for operand shapes that are not address constants
+            nty = cat_of(node.fields['ty'])
+            vty = cat_of(node.fields['var'].fields['ty'])
+            loc = field(node.fields['var'], 'is_local')
+            valid = True
+            if kind == 'ND_MEMBER' and fn == 'eval2' and nty != ['array']:
+                valid = False        # a non-array member is not an address
+            if kind == 'ND_VAR' and fn == 'eval2' and not set(vty) <= {'array', 'func'}:
+                valid = False
+            if kind == 'ND_VAR' and fn == 'eval_rval' and loc != 0:
+                valid = False        # address of a local is not constant
+            if valid:
+                rep.ob('R05.7', key + '/rejected', False,
+                       '%s rejects %s (%s) with %s(%s) although it is an address constant' % (fn, kind, WHAT[kind], out[1], show(out[2][1]) if len(out[2]) > 1 else ''),
+                       where='%s:%d' % (U, out[3]), facts={'path': ctx.trail})
+            continue
+        if kind == 'ND_VAR' and fn == 'eval_rval' and field(node.fields['var'], 'is_local') != 0:
+            rep.ob('R05.7', key + '/local-accepted', False, 'eval_rval accepts the address of a local variable as a link-time constant', where=where, facts={'path': ctx.trail})
+            continue
+        if kind == 'ND_VAR' and fn == 'eval2' and not set(cat_of(node.fields['var'].fields['ty'])) <= {'array', 'func'}:
+            rep.ob('R05.7', key + '/non-address-accepted', False, 'eval2 accepts the VALUE of a non-array variable as an address constant', where=where, facts={'path': ctx.trail})
+            continue
+        if kind == 'ND_MEMBER' and fn == 'eval2' and cat_of(node.fields['ty']) != ['array']:
+            rep.ob('R05.7', key + '/non-address-accepted', False, 'eval2 accepts the VALUE of a non-array member as an address constant', where=where, facts={'path': ctx.trail})
+            continue
+        nret += 1
+        recs = [e for e in ctx.events if e[0] == 'rec']
+        ok, msg, construct = True, '', 'addend+label'
+        want = 0
+        if len(recs) != len(terms):
+            ok = False; construct = 'operands'; msg = '%s evaluates %d operand(s) of %s, expected %d' % (fn, len(recs), kind, len(terms))
+        else:
+            for (callee, ch, lab, sign), r in zip(terms, recs):
+                a = r[2]
+                if r[1] != callee and not (callee == 'eval2' and r[1] == 'eval2'):
+                    ok = False; construct = 'operands'; msg = 'operand %s of %s is evaluated by %s, expected %s' % (ch, kind, r[1], callee); break
+                if settle(it, a[0]) is not node.fields[ch]:
+                    ok = False; construct = 'operands'; msg = '%s of %s does not evaluate node->%s' % (fn, kind, ch); break
+                passed = len(a) > 1 and a[1] is ctx.lref
+                if lab and not passed:
+                    ok = False; construct = 'label-not-passed'
+                    msg = '%s of %s evaluates node->%s without handing down the label slot: the symbol of the address constant is lost (a relocation cannot be produced)' % (fn, kind, ch); break
+                if not lab and not (len(a) > 1 and is_null(a[1])):
+                    ok = False; construct = 'label-passed-to-integer-operand'; msg = 'the integer operand node->%s of %s is evaluated with the label slot' % (ch, kind); break
+                want = lsum(want, lscale(r[3], sign))
+        if ok:
+            if plus:
+                mo = node.fields['member'].fields.get('offset')
+                if mo is None:
+                    ok = False; construct = 'member-offset-dropped'
+                    msg = ('%s of %s returns %s: the offset of the member inside its struct (node->member->offset) is not added to the addend, so the address constant '
+                           'points offsetof(member) bytes too low' % (fn, kind, show(out[1])))
+                else:
+                    want = lsum(want, mo)
+            if ok and not lin_eq(out[1], want):
+                ok = False; construct = 'addend'; msg = 'the addend computed by %s for %s (%s) is %s, expected %s' % (fn, kind, WHAT[kind], show(out[1]), show(want))
+        if ok:
+            L = ctx.slot.v
+            if labsrc is None:
+                if not is_null(L):
+                    ok = False; construct = 'label'; msg = '%s of %s writes the label slot itself' % (fn, kind)
+            else:
+                owner = node if labsrc[0] == 'node' else node.fields['var']
+                good = isinstance(L, _Ref) and isinstance(L.place, FieldPlace) and L.place.obj is owner and L.place.f == labsrc[1]
+                if not good:
+                    ok = False; construct = 'label'; msg = '%s of %s does not set *label to the address of %s->%s' % (fn, kind, labsrc[0], labsrc[1])
+        rep.ob('R05.7', key + '/' + construct, ok, msg, where=where, facts={'path': ctx.trail})
+    if nret == 0:
+        rep.undecided('R05.7', key, '%s has no accepting path for %s' % (fn, kind))
+
+
+# ------------------------------------------------------------------------------------------------
+# R05.8 positional cursor after a designator (the functions that implement the same cursor walk must agree)
+# ------------------------------------------------------------------------------------------------
+def _set_rest(it, ctx, ref, what):
+    t = Obj('Token', lazy=True, label=ctx.fresh(what))
+    if isinstance(ref, _Ref):
+        ref.place.set(it, t)
+    return t
+
+
+def _cursor_models(equal_is=None):
+    """python models of the parser helpers called by the cursor-walk functions"""
+    def m_array_designator(it, ctx, n, a):
+        b, e = Sym(ctx.fresh('begin'), 'int'), Sym(ctx.fresh('end'), 'int')
+        if len(a) < 5 or not isinstance(a[3], _Ref) or not isinstance(a[4], _Ref):
+            raise AnalysisBroken('array_designator is no longer called with (&rest, tok, ty, &begin, &end)')
+        a[3].place.set(it, b); a[4].place.set(it, e)
+        _set_rest(it, ctx, a[0], 'tok-after-designator')
+        ctx.emit('adesig', b, e, n.line)
+        return None
+
+    def m_struct_designator(it, ctx, n, a):
+        m = Obj('Member', lazy=True, label=ctx.fresh('designated-member'))
+        _set_rest(it, ctx, a[0], 'tok-after-designator')
+        ctx.emit('sdesig', m, n.line)
+        return m
+
+    def m_sub(name):
+        def f(it, ctx, n, a):
+            _set_rest(it, ctx, a[0], 'tok-after-' + name)
+            ctx.emit('sub', name, a, n.line)
+            return None
+        return f
+
+    def m_const_expr(it, ctx, n, a):
+        v = Sym(ctx.fresh('const_expr'), 'long')
+        _set_rest(it, ctx, a[0], 'tok-after-const-expr')
+        ctx.emit('cexpr', v, n.line)
+        return v
+
+    def m_equal(it, ctx, n, a):
+        s = a[1] if len(a) > 1 else None
+        if equal_is is not None and isinstance(s, str):
+            return 1 if s == equal_is else 0
+        r = View(Cell([0, 1], ctx.fresh('equal(tok,%r)' % (s,))))
+        ctx.emit('equal', s, r, n.line)
+        return r
+    return {'array_designator': m_array_designator, 'struct_designator': m_struct_designator, 'designation': m_sub('designation'),
+            'initializer2': m_sub('initializer2'), 'array_initializer2': m_sub('array_initializer2'), 'struct_initializer2': m_sub('struct_initializer2'),
+            'const_expr': m_const_expr, 'equal': m_equal}
+
+
+def _cursor_interp(P, u, equal_is=None, drop=()):
+    models = _cursor_models(equal_is)
+    for d in drop:
+        models.pop(d, None)
+    return TInterp(P, u, {'models': models, 'opaque': ['skip', 'consume_end', 'consume', 'is_end', 'count_array_init_elements', 'new_initializer', 'array_of',
+                                                        'skip_excess_element', 'error_tok'],
+                          'loop_limit': 2, 'lazy_field': children_hook(), 'track_stores': True})
+
+
+def _mk_init(kind_val):
+    def mk(ctx):
+        init = Obj('Initializer', lazy=True, label='init')
+        ty = Obj('Type', lazy=True, label='init.ty')
+        ty.fields['kind'] = kind_val
+        init.fields['ty'] = ty
+        init.fields['is_flexible'] = 0
+        ctx.root_init = init
+        ctx.slot = _Slot()
+        return [_Ref(ctx.slot), Obj('Token', lazy=True, label='tok'), init]
+    return mk
+
+
+def _child_key(ctx, child, it):
+    return child_index(field(ctx.root_init, 'children'), settle(it, child))
+
+
+def r058(P, u, E, rep):
+    _need(u, 'array_initializer1', 'count_array_init_elements', 'designation', 'struct_initializer1', 'array_designator', 'struct_designator')
+    rep.rule('R05.8', 'after a designator the positional cursor resumes behind the designated sub-object (index `end`+1 after [begin ... end], the next member after .m) in every function that walks the cursor: array_initializer1, count_array_init_elements, designation, struct_initializer1', floor=6)
+    RES = 'resume-after-range-designator'
+    what = ('after `[begin ... end] = v` the next initializer without designator must go to element end+1 (C11 6.7.9p17 with the GNU range extension); '
+            '%s continues at %s, so `{[1 ... 3] = 7, 9}` stores the 9 into the wrong element')
+    # --- array_initializer1 -------------------------------------------------------------------
+    fn = 'array_initializer1'
+    it = _cursor_interp(P, u)
+    n_after = n_first = 0
+    for ctx, out in it.explore(fn, _mk_init(E['TY_ARRAY'])):
+        if out[0] != 'ret':
+            continue
+        last = None       # ('desig', end) | ('pos', indexkey value)
+        expect = 0
+        for e in ctx.events:
+            if e[0] == 'adesig':
+                last = e; expect = lsum(e[2], 1); ctx.n_des = 0
+            elif e[0] == 'sub' and e[1] == 'initializer2':
+                k = _child_key(ctx, e[2][2], it)
+                good = k is not None and k == vkey(expect)
+                if last is not None:
+                    n_after += 1
+                    rep.ob('R05.8', '%s:%s:%s' % (U, fn, RES), good, what % (fn, 'element ' + show_key(k)), where='%s:%d' % (U, e[3]), facts={'path': ctx.trail, 'begin..end': (show(last[1]), show(last[2]))})
+                else:
+                    n_first += 1
+                    rep.ob('R05.8', '%s:%s:positional-elements-consecutive-from-0' % (U, fn), good,
+                           'positional initializer #%s of a braced array initializer goes to element %s' % (show(expect), show_key(k)), where='%s:%d' % (U, e[3]), facts={'path': ctx.trail})
+                last = None if last is None else last
+                expect = lsum(expect, 1)
+            elif e[0] == 'sub' and e[1] == 'designation' and last is not None:
+                # the designated elements themselves: begin, begin+1, ...
+                k = _child_key(ctx, e[2][2], it)
+                nd = getattr(ctx, 'n_des', 0)
+                rep.ob('R05.8', '%s:%s:range-designates-begin..end' % (U, fn), k is not None and k == vkey(lsum(last[1], nd)),
+                       'element #%d designated by [begin ... end] is element %s, expected begin+%d' % (nd, show_key(k), nd), where='%s:%d' % (U, e[3]), facts={'path': ctx.trail})
+                ctx.n_des = nd + 1
+    if n_after == 0 or n_first == 0:
+        rep.undecided('R05.8', '%s:%s' % (U, fn), 'cursor walk not recognised (no positional element after a designator / at the start on any path)')
+    # the designated elements themselves: begin..end
+    # --- count_array_init_elements ---------------------------------------------------------------
+    fn = 'count_array_init_elements'
+    it = _cursor_interp(P, u)
+
+    def mk_count(ctx):
+        ty = Obj('Type', lazy=True, label='ty')
+        ctx.root_init = None
+        return [Obj('Token', lazy=True, label='tok'), ty]
+    n_rng = n_one = 0
+    for ctx, out in it.explore(fn, mk_count):
+        if out[0] != 'ret':
+            continue
+        # per iteration: const_expr results since the last cursor update
+        ces = []
+        rng = False
+        for e in ctx.events:
+            if e[0] == 'cexpr':
+                ces.append(e[1])
+            elif e[0] == 'equal' and e[1] == '...':
+                rng = settle(it, e[2]) == 1
+            elif e[0] == 'upd' and e[1] is not None and ces:
+                # the increment that follows a designator
+                if lin_eq(e[3], lsum(e[2], 1)):
+                    want = ces[-1] if rng else ces[0]
+                    good = (len(ces) == (2 if rng else 1)) and strip_cast(e[2])[0] is want
+                    if rng:
+                        n_rng += 1
+                        rep.ob('R05.8', '%s:%s:%s' % (U, fn, RES), good,
+                               'when counting the elements of `T x[] = {...}`, after [begin ... end] the cursor becomes %s instead of end+1: the array gets the wrong length' % show(e[3]),
+                               where='%s:%d' % (U, e[4]), facts={'path': ctx.trail})
+                    else:
+                        n_one += 1
+                        rep.ob('R05.8', '%s:%s:resume-after-index-designator' % (U, fn), good,
+                               'when counting the elements of `T x[] = {...}`, after [i] the cursor becomes %s instead of i+1' % show(e[3]), where='%s:%d' % (U, e[4]), facts={'path': ctx.trail})
+                    ces = []; rng = False
+    if n_rng == 0 or n_one == 0:
+        rep.undecided('R05.8', '%s:%s' % (U, fn), 'cursor walk not recognised (range paths %d, single-index paths %d)' % (n_rng, n_one))
+    # --- designation, "[" branch -----------------------------------------------------------------
+    fn = 'designation'
+    models_drop = ('designation',)
+    it = _cursor_interp(P, u, equal_is='[', drop=models_drop)
+
+    def h_rec(it_, ctx, n, a):
+        _set_rest(it_, ctx, a[0], 'tok-after-designation')
+        ctx.emit('sub', 'designation', a, n.line)
+        return None
+    it.cut['designation'] = h_rec
+    n_a = 0
+    for ctx, out in it.explore(fn, _mk_init(E['TY_ARRAY'])):
+        if out[0] != 'ret':
+            continue
+        des = [e for e in ctx.events if e[0] == 'adesig']
+        cont = [e for e in ctx.events if e[0] == 'sub' and e[1] == 'array_initializer2']
+        subs = [e for e in ctx.events if e[0] == 'sub' and e[1] == 'designation']
+        if not des or not subs:
+            continue        # begin <= end is guaranteed by array_designator: the empty range is not judged
+        n_a += 1
+        ok = len(cont) == 1 and len(cont[0][2]) >= 4 and lin_eq(cont[0][2][3], lsum(des[0][2], 1)) and settle(it, cont[0][2][2]) is ctx.root_init
+        at = show(cont[0][2][3]) if cont and len(cont[0][2]) >= 4 else 'nothing'
+        rep.ob('R05.8', '%s:%s:%s' % (U, fn, RES), ok, what % ('designation (nested designator such as `.a[1 ... 3] = 7, 9` or `[0][1 ... 3] = 7, 9`)', 'element ' + at),
+               where='%s:%d' % (U, cont[0][3] if cont else u.fn(fn).line), facts={'path': ctx.trail})
+        # the designated elements are begin..end
+        subs = [e for e in ctx.events if e[0] == 'sub' and e[1] == 'designation']
+        ks = [_child_key(ctx, e[2][2], it) for e in subs]
+        b = des[0][1]
+        want = [vkey(lsum(b, i)) for i in range(len(ks))]
+        rep.ob('R05.8', '%s:%s:range-designates-begin..end' % (U, fn), ks == want and len(ks) >= 1,
+               'a range designator initialises elements %s, expected begin, begin+1, ... end' % (ks,), where=_w(u, fn), facts={'path': ctx.trail})
+    if n_a == 0:
+        rep.undecided('R05.8', '%s:%s' % (U, fn), 'array-designator branch of designation not recognised')
+    # --- designation, "." struct branch; struct_initializer1 -------------------------------------------
+    it = _cursor_interp(P, u, equal_is='.', drop=models_drop)
+    it.cut['designation'] = h_rec
+    n_s = 0
+    for ctx, out in it.explore(fn, _mk_init(E['TY_STRUCT'])):
+        if out[0] != 'ret':
+            continue
+        des = [e for e in ctx.events if e[0] == 'sdesig']
+        cont = [e for e in ctx.events if e[0] == 'sub' and e[1] == 'struct_initializer2']
+        if not des:
+            continue
+        n_s += 1
+        m = des[0][1]
+        ok = len(cont) == 1 and len(cont[0][2]) >= 4 and 'next' in m.fields and same(it, cont[0][2][3], m.fields['next'])
+        rep.ob('R05.8', '%s:%s:resume-after-member-designator' % (U, fn), ok,
+               'after a nested `.m = v` designator the following initializers do not continue with the member after m', where=_w(u, fn), facts={'path': ctx.trail})
+        subs = [e for e in ctx.events if e[0] == 'sub' and e[1] == 'designation']
+        good = len(subs) == 1 and 'idx' in m.fields and _child_key(ctx, subs[0][2][2], it) == vkey(m.fields['idx'])
+        rep.ob('R05.8', '%s:%s:member-designator-selects-children[idx]' % (U, fn), good, '`.m = v` does not initialise init->children[m->idx]', where=_w(u, fn), facts={'path': ctx.trail})
+        ex = field(ctx.root_init, 'expr')
+        rep.ob('R05.8', '%s:%s:member-designator-cancels-struct-copy' % (U, fn), is_null(ex) and 'expr' in ctx.root_init.fields,
+               'a member designator does not cancel an earlier whole-struct initializer expression (init->expr stays set, the member value would be ignored)', where=_w(u, fn))
+    if n_s == 0:
+        rep.undecided('R05.8', '%s:%s' % (U, fn), 'struct-designator branch of designation not recognised')
+    fn = 'struct_initializer1'
+    it = _cursor_interp(P, u)
+    n_after = n_first = 0
+    for ctx, out in it.explore(fn, _mk_init(E['TY_STRUCT'])):
+        if out[0] != 'ret':
+            continue
+        cur = ('first',)
+        for e in ctx.events:
+            if e[0] == 'sdesig':
+                cur = ('after', e[1])
+            elif e[0] == 'sub' and e[1] == 'initializer2':
+                k = _child_key(ctx, e[2][2], it)
+                if cur[0] == 'first':
+                    m0 = field(field(ctx.root_init, 'ty'), 'members')
+                    good = isinstance(m0, Obj) and 'idx' in m0.fields and k == vkey(m0.fields['idx'])
+                    n_first += 1
+                    rep.ob('R05.8', '%s:%s:first-positional-is-first-member' % (U, fn), good, 'the first initializer of a braced struct initializer does not go to the first member', where='%s:%d' % (U, e[3]))
+                elif cur[0] == 'after':
+                    nx = field(cur[1], 'next')
+                    good = isinstance(nx, Obj) and 'idx' in nx.fields and k == vkey(nx.fields['idx'])
+                    n_after += 1
+                    rep.ob('R05.8', '%s:%s:resume-after-member-designator' % (U, fn), good,
+                           'after `.m = v` the next initializer without designator does not go to the member that follows m', where='%s:%d' % (U, e[3]), facts={'path': ctx.trail})
+                cur = ('other',)
+    if n_after == 0 or n_first == 0:
+        rep.undecided('R05.8', '%s:%s' % (U, fn), 'cursor walk not recognised')
+
+
+# ------------------------------------------------------------------------------------------------
+# R05.5 data emission walk (codegen.c emit_data)
+# ------------------------------------------------------------------------------------------------
+def _emit_interp(P, cu, cg, loop_limit):
+    def h_println(it, ctx, n, args):
+        ctx.emit('emit', args[0], args[1:], n.line)
+        return None
+    return TInterp(P, cu, {'cut': {'println': h_println}, 'lazy_field': cg.lazy_field, 'loop_limit': loop_limit,
+                           'globals': {'opt_fcommon': lambda ctx: View(Cell([0, 1], 'opt_fcommon'))}})
+
+
+def _directive(fmt):
+    s = fmt.strip()
+    return s.split()[0] if s else ''
+
+
+def r055(P, rep):
+    from ..chibi import CG
+    cg = CG(P)
+    cu = cg.cu
+    CU = 'codegen.c'
+    if 'emit_data' not in cu.functions:
+        raise AnalysisBroken('anchor emit_data vanished from codegen.c')
+    rep.rule('R05.5', 'emit_data walks the byte image consistently: 8 bytes per relocation, consumed exactly when its offset equals the position, 1 byte otherwise, up to the object size; .size/.zero/.comm use the object size and the array-aware alignment', floor=8)
+    where = '%s:%d' % (CU, cu.fn('emit_data').line)
+    E = cu.enums
+    # ---- (a) the walk over image + relocations ----------------------------------------------
+    it = _emit_interp(P, cu, cg, 2)
+
+    def mk(ctx):
+        v = Obj('Obj', lazy=True, label='var')
+        v.fields.update({'next': 0, 'is_function': 0, 'is_definition': 1, 'is_static': 0, 'is_tls': 0, 'is_tentative': 0})
+        ty = Obj('Type', lazy=True, label='var.ty')
+        ty.fields['kind'] = E['TY_STRUCT']
+        ty.fields['size'] = Sym('var.ty.size', 'int')
+        v.fields['ty'] = ty
+        v.fields['init_data'] = Sym('var.init_data', 'char *')
+        ctx.neq[('sym', 'var.init_data')] = {0}
+        ctx.var = v
+        return [v]
+    res = it.explore('emit_data', mk)
+    nq = nb = 0
+    for ctx, out in res:
+        if out[0] != 'ret':
+            continue
+        v = ctx.var
+        size = v.fields['ty'].fields['size']
+        items = []
+        started = False
+        for e in ctx.events:
+            if e[0] == 'emit':
+                if not started:
+                    if isinstance(e[1], str) and e[1].strip() == '%s:':
+                        started = True
+                    continue
+                items.append(e)
+        upd = [e for e in ctx.events if e[0] == 'upd' and e[1] == 'pos']
+        pos = 0
+        relv = ('field', v, 'rel')
+        ok, msg, construct = True, '', 'walk'
+
+        def cur_rel():
+            o, f = relv[1], relv[2]
+            return field(o, f)
+        ui = 0
+        for e in items:
+            d = _directive(e[1])
+            R = cur_rel()
+            if R is None or isinstance(R, View):
+                ok = False; construct = 'relocation-cursor-not-consulted'
+                msg = 'at image position %d emit_data does not look at the current relocation (after emitting a relocation the cursor must advance to rel->next; otherwise later address constants are emitted as raw zero bytes)' % pos
+                break
+            if d == '.quad':
+                nq += 1
+                if not isinstance(R, Obj):
+                    ok = False; construct = 'quad-without-relocation'; msg = 'a .quad is emitted at position %d although the relocation list is exhausted' % pos; break
+                b = ctx.bounds.get(vkey(R.fields.get('offset'))) if 'offset' in R.fields else None
+                if not b or b[0] != pos or b[1] != pos:
+                    ok = False; construct = 'relocation-consumed-at-wrong-position'
+                    msg = 'a relocation is emitted at image position %d without its offset being equal to that position' % pos; break
+                a = e[2]
+                lab_ok = len(a) == 2 and isinstance(a[0], Term) and a[0].op == 'load' and isinstance(a[0].args[0], Term) and a[0].args[0].args[0] is R.fields.get('label')
+                if not lab_ok or a[1] is not R.fields.get('addend'):
+                    ok = False; construct = 'quad-operands'; msg = '.quad does not print *rel->label and rel->addend of the relocation at this position (%s)' % ', '.join(show(x) for x in a); break
+                step = 8
+                relv = ('field', R, 'next')
+            elif d == '.byte':
+                nb += 1
+                if isinstance(R, Obj):
+                    off = R.fields.get('offset')
+                    ne = ctx.neq.get(vkey(off), ()) if off is not None else ()
+                    b = ctx.bounds.get(vkey(off)) if off is not None else None
+                    differs = pos in ne or (b is not None and (b[1] < pos or b[0] > pos))
+                    if off is None or not differs:
+                        ok = False; construct = 'relocation-skipped'
+                        msg = 'a raw byte is emitted at position %d although a relocation may be due there (its offset is not compared with the position)' % pos; break
+                a = e[2]
+                good = len(a) == 1 and isinstance(a[0], Term) and a[0].op == 'load' and isinstance(a[0].args[0], Term) and a[0].args[0].op == 'elem' \
+                    and a[0].args[0].args[0] is v.fields['init_data'] and a[0].args[0].args[1] == pos and ctype_bits(a[0].args[0].args[2]) == 8
+                if not good:
+                    ok = False; construct = 'byte-operand'; msg = '.byte at position %d does not print init_data[%d] (%s)' % (pos, pos, show(a[0]) if a else ''); break
+                step = 1
+            else:
+                ok = False; construct = 'unexpected-directive'; msg = 'unexpected output `%s` inside the data image' % e[1]; break
+            if ui >= len(upd) or upd[ui][2] != pos or upd[ui][3] != pos + step:
+                ok = False; construct = 'position-step'
+                msg = 'after `%s` the image position goes from %s to %s, expected %d -> %d (a relocation occupies 8 bytes, a raw byte 1)' % (
+                    d, show(upd[ui][2]) if ui < len(upd) else '?', show(upd[ui][3]) if ui < len(upd) else '?', pos, pos + step); break
+            ui += 1
+            pos += step
+            last_step = step
+        if ok:
+            b = ctx.bounds.get(vkey(size))
+            if items:
+                good = b is not None and b[1] <= pos and b[0] > pos - last_step
+            else:
+                good = b is not None and b[1] <= 0
+            if not good:
+                ok = False; construct = 'image-length'
+                msg = 'the walk emits %d bytes for an object whose size is known to be in [%s, %s]: the loop does not run while position < var->ty->size' % (pos, b[0] if b else '?', b[1] if b else '?')
+        rep.ob('R05.5', '%s:emit_data:%s' % (CU, construct), ok, msg, where=where, facts={'path': ctx.trail[-10:]})
+    if nq == 0 or nb == 0:
+        rep.undecided('R05.5', '%s:emit_data:walk' % CU, 'image walk not recognised (.quad items %d, .byte items %d)' % (nq, nb))
+    # ---- (b) size / alignment / zero fill of the header ------------------------------------------
+    it = _emit_interp(P, cu, cg, 1)
+
+    seen = set()
+    for tname in ('int', 'ptr', 'struct', 'array'):
+        def mk2(ctx, tname=tname):
+            v = Obj('Obj', lazy=True, label='var')
+            v.fields.update({'next': 0, 'is_function': 0, 'is_definition': 1, 'rel': 0})
+            v.fields['init_data'] = View(Cell([0, Sym('var.init_data', 'char *')], 'var.init_data'))
+            v.fields['ty'] = type_cell(cg.cat, 'var.ty', only=(tname,))
+            ctx.neq[('sym', 'var.init_data')] = {0}
+            ctx.var = v
+            return [v]
+        _r055_header(it, rep, cu, E, mk2, seen, where)
+    for d in ('.size', '.zero', '.comm', '.align'):
+        if d not in seen:
+            rep.undecided('R05.5', '%s:emit_data:%s' % (CU, d), 'directive %s is never emitted on any path' % d)
+
+
+def _r055_header(it, rep, cu, E, mk2, seen, where):
+    CU = 'codegen.c'
+    for ctx, out in it.explore('emit_data', mk2):
+        if out[0] != 'ret':
+            continue
+        v = ctx.var
+        ty = settle(it, v.fields.get('ty'))
+        if not isinstance(ty, Obj):
+            continue
+        size = ty.fields.get('size')
+        emits = [e for e in ctx.events if e[0] == 'emit']
+        # expected alignment
+        isarr = ty.fields.get('kind') == E['TY_ARRAY']
+        sb = ctx.bounds.get(vkey(size)) if size is not None and not isinstance(size, int) else ([size, size] if isinstance(size, int) else None)
+        big = isarr and sb is not None and sb[0] >= 16
+        small = (not isarr) or (sb is not None and sb[1] < 16)
+        va = v.fields.get('align')
+        ab = ctx.bounds.get(vkey(va)) if va is not None else None
+
+        def align_ok(a):
+            if big:
+                return (a == 16 and ab is not None and ab[1] <= 16) or (a is va and ab is not None and ab[0] > 16)
+            if small:
+                return a is va and va is not None
+            return None
+        for e in emits:
+            d = _directive(e[1])
+            a = e[2]
+            if d == '.size':
+                seen.add(d)
+                rep.ob('R05.5', '%s:emit_data:.size-is-object-size' % CU, len(a) == 2 and same(it, a[1], size) and a[0] is v.fields.get('name'),
+                       '.size does not announce var->ty->size for the symbol var->name (%s)' % ', '.join(show(x) for x in a), where='%s:%d' % (CU, e[3]))
+            elif d == '.zero':
+                seen.add(d)
+                good = len(a) == 1 and same(it, a[0], size) and is_null(settle(it, v.fields['init_data']))
+                rep.ob('R05.5', '%s:emit_data:.zero-is-object-size' % CU, good,
+                       'an object without initializer is not emitted as exactly var->ty->size zero bytes (%s)' % ', '.join(show(x) for x in a), where='%s:%d' % (CU, e[3]))
+            elif d == '.comm':
+                seen.add(d)
+                good = len(a) == 3 and a[0] is v.fields.get('name') and same(it, a[1], size) and align_ok(a[2]) is not False
+                rep.ob('R05.5', '%s:emit_data:.comm-size-align' % CU, good,
+                       '.comm does not carry (name, var->ty->size, alignment): %s' % ', '.join(show(x) for x in a), where='%s:%d' % (CU, e[3]))
+            elif d == '.align':
+                seen.add(d)
+                r = align_ok(a[0]) if len(a) == 1 else False
+                if r is None:
+                    continue
+                rep.ob('R05.5', '%s:emit_data:.align-%s' % (CU, 'array>=16-bytes' if big else 'plain'), r,
+                       'the alignment of %s is emitted as %s, expected %s' % ('an array of 16 bytes or more' if big else 'an object', show(a[0]) if a else '?', 'max(16, var->align)' if big else 'var->align'),
+                       where='%s:%d' % (CU, e[3]), facts={'path': ctx.trail[-8:]})
+        inited = not is_null(settle(it, v.fields['init_data']))
+        comm = any(_directive(e[1]) == '.comm' for e in emits)
+        if not inited and not comm:
+            rep.ob('R05.5', '%s:emit_data:uninitialised-object-zero-filled' % CU, any(_directive(e[1]) == '.zero' for e in emits),
+                   'a defined object without initializer gets neither .zero nor .comm', where=where, facts={'path': ctx.trail[-8:]})
